@@ -18,8 +18,11 @@ namespace IstioModel.C07
 def Imported (m : Mesh) (vss : List VS) (sc : Option Sidecar) (cfgNs : String) (o : Svc) : Prop :=
   ∃ l ∈ egressOf sc,
     HostImports (parseHosts cfgNs l.hosts) o.ns o.hostname ∨
-    ∃ v ∈ vss, vsOnMesh v = true ∧ VSVisible m v cfgNs ∧ VSImports (parseHosts cfgNs l.hosts) v ∧
-      ∃ d ∈ vsDestinations v cfgNs, d.1 = o.hostname
+    (∃ v ∈ vss, vsOnMesh v = true ∧ VSVisible m v cfgNs ∧ VSImports (parseHosts cfgNs l.hosts) v ∧
+      ∃ d ∈ vsDestinations v cfgNs, d.1 = o.hostname) ∧
+      -- "a host is exposed only when it is imported by some entry and not excluded by any entry": a `~` entry
+      -- of the listener covering the service keeps it out also when a VirtualService routes to it
+      ¬ (∃ p ∈ parseHosts cfgNs l.hosts, p.excluded = true ∧ (p.ns = o.ns ∨ p.ns = "*") ∧ subsetOf o.hostname p.name = true)
 
 /-- the same for one egress listener -/
 def ListenerImports (cfgNs : String) (l : Listener) (o : Svc) : Prop :=
@@ -32,6 +35,7 @@ theorem collectListener_inv (Q : Svc → Prop)
     (f : Flags) (m : Mesh) (svcs : List Svc) (cfgNs : String) (acc : List Svc) (ilw : ILW)
     (hacc : ∀ x ∈ acc, Q x) (hsv : ∀ x ∈ ilw.services, Q x)
     (hvs : ∀ v ∈ ilw.vss, ∀ d ∈ vsDestinations v cfgNs, ∀ s, resolveDest f m svcs cfgNs d.1 = some s →
+      (f.exclGuard = true → (exclBy (hcFor ilw.hosts s.ns) s.hostname || exclBy (hcFor ilw.hosts "*") s.hostname) = false) →
       Q (trimHiddenAlias f.aliasGuard m svcs cfgNs s)) :
     ∀ x ∈ collectListener f m svcs cfgNs acc ilw, Q x := by
   unfold collectListener
@@ -48,11 +52,18 @@ theorem collectListener_inv (Q : Svc → Prop)
     apply foldl_inv (P := fun a => ∀ x ∈ a, Q x)
     · exact hb
     · intro b' d hd hb'
+      unfold addVSDestX
+      split
+      · exact hb'
+      rename_i hguard
       unfold addVSDest
       cases hr : resolveDest f m svcs cfgNs d.1 with
       | none => exact hb'
       | some s =>
-        have hqs := hvs v hv d hd s hr
+        have hqs := hvs v hv d hd s hr (by
+          intro hg
+          simp only [hg, Bool.true_and, destExcluded, hr] at hguard
+          simpa using hguard)
         simp only [Option.map_some]
         cases hmp : ilw.matchPort with
         | some p =>
@@ -70,13 +81,17 @@ theorem collectListener_inv (Q : Svc → Prop)
             obtain ⟨h1, _, h3⟩ := vsPorts_some hq
             exact happ b' x' hb' (hQ x' _ h1 (fun a ha => h3 ▸ ha) hqs)
 
-/-- the generic invariant of the whole scope construction -/
-theorem scope_inv (Q : Svc → Prop)
+/-- the generic invariant of the whole scope construction; a VirtualService destination only has to be
+    justified when no `~` entry of the listener covers the service it resolves to (repaired code) -/
+theorem scope_inv' (Q : Svc → Prop)
     (hQ : ∀ x y : Svc, x.core = y.core → (∀ a ∈ x.aliases, a ∈ y.aliases) → Q y → Q x)
     (f : Flags) (m : Mesh) (svcs : List Svc) (vss : List VS) (sc : Option Sidecar) (cfgNs : String)
     (hsv : ∀ l ∈ egressOf sc, ∀ x ∈ (convertListener f m svcs vss cfgNs l).services, Q x)
     (hvs : ∀ l ∈ egressOf sc, ∀ v ∈ (convertListener f m svcs vss cfgNs l).vss, ∀ d ∈ vsDestinations v cfgNs,
-      ∀ s, resolveDest f m svcs cfgNs d.1 = some s → Q (trimHiddenAlias f.aliasGuard m svcs cfgNs s)) :
+      ∀ s, resolveDest f m svcs cfgNs d.1 = some s →
+      (f.exclGuard = true → (exclBy (hcFor (parseHosts cfgNs l.hosts) s.ns) s.hostname ||
+          exclBy (hcFor (parseHosts cfgNs l.hosts) "*") s.hostname) = false) →
+      Q (trimHiddenAlias f.aliasGuard m svcs cfgNs s)) :
     ∀ x ∈ scopeServices f m svcs vss sc cfgNs, Q x := by
   unfold scopeServices collectImportedServices scopeListeners
   apply foldl_inv (P := fun a => ∀ x ∈ a, Q x)
@@ -84,6 +99,15 @@ theorem scope_inv (Q : Svc → Prop)
   · intro acc ilw hilw hacc
     obtain ⟨l, hl, rfl⟩ := List.mem_map.mp hilw
     exact collectListener_inv Q hQ f m svcs cfgNs acc _ hacc (hsv l hl) (hvs l hl)
+
+theorem scope_inv (Q : Svc → Prop)
+    (hQ : ∀ x y : Svc, x.core = y.core → (∀ a ∈ x.aliases, a ∈ y.aliases) → Q y → Q x)
+    (f : Flags) (m : Mesh) (svcs : List Svc) (vss : List VS) (sc : Option Sidecar) (cfgNs : String)
+    (hsv : ∀ l ∈ egressOf sc, ∀ x ∈ (convertListener f m svcs vss cfgNs l).services, Q x)
+    (hvs : ∀ l ∈ egressOf sc, ∀ v ∈ (convertListener f m svcs vss cfgNs l).vss, ∀ d ∈ vsDestinations v cfgNs,
+      ∀ s, resolveDest f m svcs cfgNs d.1 = some s → Q (trimHiddenAlias f.aliasGuard m svcs cfgNs s)) :
+    ∀ x ∈ scopeServices f m svcs vss sc cfgNs, Q x :=
+  scope_inv' Q hQ f m svcs vss sc cfgNs hsv (fun l hl v hv d hd s hr _ => hvs l hl v hv d hd s hr)
 
 /-- the candidates of a listener are (alias-trimmed copies of) visible mesh services -/
 theorem mem_listener_cands {f : Flags} {m : Mesh} {svcs : List Svc} {cfgNs : String} {ps : List PHost} {c : Svc}
@@ -121,24 +145,32 @@ theorem listener_services_sound (f : Flags) (m : Mesh) (svcs : List Svc) (vss : 
     proxy's namespace and that the scope imports - for every mesh, every service list (colliding
     hostnames, duplicates), every exportTo form and mesh default, every Sidecar or none, both
     `UnifiedSidecarScoping` / `PickBest` settings, and with or without the exact-host / alias repairs. -/
-theorem scope_sound (f : Flags) (hfix : f.visGuard = true) (m : Mesh) (svcs : List Svc) (vss : List VS)
+theorem scope_sound (f : Flags) (hfix : f.visGuard = true) (hex : f.exclGuard = true) (m : Mesh) (svcs : List Svc) (vss : List VS)
     (sc : Option Sidecar) (cfgNs : String) (hvn : ∀ v ∈ vss, v.ns ≠ "*") :
     ∀ s ∈ scopeServices f m svcs vss sc cfgNs,
       ∃ o ∈ svcs, s.core = o.core ∧ isServiceVisible m o cfgNs = true ∧ Imported m vss sc cfgNs o := by
   let Q : Svc → Prop := fun s => ∃ o ∈ svcs, s.core = o.core ∧ isServiceVisible m o cfgNs = true ∧ Imported m vss sc cfgNs o
   have hQ : ∀ x y : Svc, x.core = y.core → (∀ a ∈ x.aliases, a ∈ y.aliases) → Q y → Q x := by
     rintro x y hxy _ ⟨o, ho, hyo, hv, hi⟩; exact ⟨o, ho, hxy.trans hyo, hv, hi⟩
-  apply scope_inv Q hQ
+  apply scope_inv' Q hQ
   · -- explicitly imported services
     intro l hl x hx
     obtain ⟨o, ho, hc, hv, hi, _, _⟩ := listener_services_sound f m svcs vss cfgNs l x hx
     exact ⟨o, ho, hc, hv, l, hl, Or.inl hi⟩
   · -- destinations of imported VirtualServices
-    intro l hl v hv d hd s hr
+    intro l hl v hv d hd s hr hne
     obtain ⟨h1, h2, h3⟩ := resolveDest_some hr
     simp only [convertListener] at hv
     obtain ⟨v1, v2, v3, v4⟩ := vs_select_sound f.unified m vss cfgNs _ hvn v hv
-    exact ⟨s, h1, (trim_core _ _ _ _ _).1, h3 hfix, l, hl, Or.inr ⟨v, v1, v2, v3, v4, d, hd, h2.symm⟩⟩
+    refine ⟨s, h1, (trim_core _ _ _ _ _).1, h3 hfix, l, hl, Or.inr ⟨⟨v, v1, v2, v3, v4, d, hd, h2.symm⟩, ?_⟩⟩
+    have hne := hne hex
+    simp only [Bool.or_eq_false_iff] at hne
+    rintro ⟨p, hp, he, hk, hsub⟩
+    rcases hk with hk | hk
+    · have := (exclBy_iff (parseHosts cfgNs l.hosts) s.ns s.hostname).mpr ⟨p, hp, he, hk, hsub⟩
+      rw [hne.1] at this; cases this
+    · have := (exclBy_iff (parseHosts cfgNs l.hosts) "*" s.hostname).mpr ⟨p, hp, he, hk, hsub⟩
+      rw [hne.2] at this; cases this
 
 /-- the visibility half of `scope_sound`, without any assumption on the VirtualServices -/
 theorem scope_visible_sound (f : Flags) (hfix : f.visGuard = true) (m : Mesh) (svcs : List Svc) (vss : List VS)
@@ -156,12 +188,12 @@ theorem scope_visible_sound (f : Flags) (hfix : f.visGuard = true) (m : Mesh) (s
     exact ⟨s, h1, (trim_core _ _ _ _ _).1, h3 hfix⟩
 
 /-- `scope_sound` against the documented visibility (`Visible`), for a real namespace name. -/
-theorem scope_sound_spec (f : Flags) (hfix : f.visGuard = true) (m : Mesh) (svcs : List Svc) (vss : List VS)
+theorem scope_sound_spec (f : Flags) (hfix : f.visGuard = true) (hex : f.exclGuard = true) (m : Mesh) (svcs : List Svc) (vss : List VS)
     (sc : Option Sidecar) (cfgNs : String) (hns : ValidNs cfgNs) (hvn : ∀ v ∈ vss, v.ns ≠ "*") :
     ∀ s ∈ scopeServices f m svcs vss sc cfgNs,
       ∃ o ∈ svcs, s.core = o.core ∧ Visible m o cfgNs ∧ Imported m vss sc cfgNs o := by
   intro s hs
-  obtain ⟨o, ho, hc, hv, hi⟩ := scope_sound f hfix m svcs vss sc cfgNs hvn s hs
+  obtain ⟨o, ho, hc, hv, hi⟩ := scope_sound f hfix hex m svcs vss sc cfgNs hvn s hs
   exact ⟨o, ho, hc, (visible_iff m o cfgNs hns).mp hv, hi⟩
 
 /-- **scope_alias_sound**: on the repaired code (`aliasGuard`) every alias hostname carried by a
@@ -227,7 +259,7 @@ theorem listener_complete (f : Flags) (hx : f.exactGuard = true)
     namespace (with a well-formed export set) and imported by a host entry of a port-unrestricted
     egress listener is delivered - or displaced by the same-hostname tie-break, in which case the
     delivered service has the same hostname and is itself a visible, imported mesh service. -/
-theorem scope_complete (f : Flags) (hfix : f.visGuard = true) (hx : f.exactGuard = true)
+theorem scope_complete (f : Flags) (hfix : f.visGuard = true) (hex : f.exclGuard = true) (hx : f.exactGuard = true)
     (m : Mesh) (svcs : List Svc) (vss : List VS) (sc : Option Sidecar) (cfgNs : String) (hns : ValidNs cfgNs)
     (o : Svc) (ho : o ∈ svcs) (hv : isServiceVisible m o cfgNs = true) (hwf : ExportWF (serviceExportTo m o))
     (l : Listener) (hl : l ∈ egressOf sc) (hmp : l.matchPort = none)
@@ -239,17 +271,17 @@ theorem scope_complete (f : Flags) (hfix : f.visGuard = true) (hx : f.exactGuard
   have hilw : convertListener f m svcs vss cfgNs l ∈ scopeListeners f m svcs vss sc cfgNs :=
     List.mem_map.mpr ⟨l, hl, rfl⟩
   obtain ⟨x, hxm, hxh⟩ := collect_hostnames f m svcs cfgNs _ [] _ hilw w hw'
-  exact ⟨x, hxm, hxh.trans hwh, scope_sound f hfix m svcs vss sc cfgNs hvn x hxm⟩
+  exact ⟨x, hxm, hxh.trans hwh, scope_sound f hfix hex m svcs vss sc cfgNs hvn x hxm⟩
 
 /-- if moreover no other visible mesh service carries the hostname, the service itself is delivered -/
-theorem scope_complete_unique (f : Flags) (hfix : f.visGuard = true) (hx : f.exactGuard = true)
+theorem scope_complete_unique (f : Flags) (hfix : f.visGuard = true) (hex : f.exclGuard = true) (hx : f.exactGuard = true)
     (m : Mesh) (svcs : List Svc) (vss : List VS) (sc : Option Sidecar) (cfgNs : String) (hns : ValidNs cfgNs)
     (o : Svc) (ho : o ∈ svcs) (hv : isServiceVisible m o cfgNs = true) (hwf : ExportWF (serviceExportTo m o))
     (l : Listener) (hl : l ∈ egressOf sc) (hmp : l.matchPort = none)
     (himp : HostImports (parseHosts cfgNs l.hosts) o.ns o.hostname) (hvn : ∀ v ∈ vss, v.ns ≠ "*")
     (huniq : ∀ o' ∈ svcs, o'.hostname = o.hostname → isServiceVisible m o' cfgNs = true → o' = o) :
     ∃ w ∈ scopeServices f m svcs vss sc cfgNs, w.core = o.core := by
-  obtain ⟨w, hw, hwh, o', ho', hc, hv', _⟩ := scope_complete f hfix hx m svcs vss sc cfgNs hns o ho hv hwf l hl hmp himp hvn
+  obtain ⟨w, hw, hwh, o', ho', hc, hv', _⟩ := scope_complete f hfix hex hx m svcs vss sc cfgNs hns o ho hv hwf l hl hmp himp hvn
   have := huniq o' ho' ((core_hostname hc).symm.trans hwh) hv'
   exact ⟨w, hw, this ▸ hc⟩
 
@@ -265,13 +297,13 @@ theorem default_imports_all (cfgNs ns h : String) : HostImports (parseHosts cfgN
 
 /-- **default scope**: when no Sidecar applies every visible service (well-formed export set) is
     delivered or displaced by a visible service with the same hostname. -/
-theorem default_scope_complete (f : Flags) (hfix : f.visGuard = true) (hx : f.exactGuard = true)
+theorem default_scope_complete (f : Flags) (hfix : f.visGuard = true) (hex : f.exclGuard = true) (hx : f.exactGuard = true)
     (m : Mesh) (svcs : List Svc) (vss : List VS) (cfgNs : String) (hns : ValidNs cfgNs)
     (o : Svc) (ho : o ∈ svcs) (hv : isServiceVisible m o cfgNs = true) (hwf : ExportWF (serviceExportTo m o))
     (hvn : ∀ v ∈ vss, v.ns ≠ "*") :
     ∃ w ∈ scopeServices f m svcs vss none cfgNs, w.hostname = o.hostname ∧
       ∃ o' ∈ svcs, w.core = o'.core ∧ isServiceVisible m o' cfgNs = true ∧ Imported m vss none cfgNs o' :=
-  scope_complete f hfix hx m svcs vss none cfgNs hns o ho hv hwf defaultListener (by simp [egressOf])
+  scope_complete f hfix hex hx m svcs vss none cfgNs hns o ho hv hwf defaultListener (by simp [egressOf])
     (by simp [Listener.matchPort, defaultListener]) (default_imports_all cfgNs o.ns o.hostname) hvn
 
 /-! ### the two defects found (behaviour before the `fix:` commits), as theorems about the old model -/
@@ -746,5 +778,26 @@ theorem scope_alias_backed (f : Flags) (hfix : f.aliasGuard = true) (m : Mesh) (
     (sc : Option Sidecar) (cfgNs : String) (hns : ValidNs cfgNs) :
     ∀ s ∈ scopeServices f m svcs vss sc cfgNs, ∀ a ∈ s.aliases, AliasBacked m svcs cfgNs a :=
   fun s hs a ha => aliasVisible_backed m svcs cfgNs hns a (scope_alias_sound f hfix m svcs vss sc cfgNs s hs a ha)
+
+
+/-! ### F14: a `~` entry bypassed by a VirtualService destination (behaviour before the repair) -/
+
+def f14Svcs : List Svc :=
+  [ mkSvc "s0" "a.com" "ns1" 1 false [80] ["*"], mkSvc "s1" "b.com" "ns1" 2 false [80] ["*"] ]
+
+def f14VS : VS := mkVS "v" "ns1" ["b.com"] ["a.com"]
+
+def f14SC : Sidecar := { name := "sc", ns := "ns1", ctime := 1, selector := none, egress := [{ hosts := ["./b.com", "~./a.com"] }] }
+
+/-- before the repair: Sidecar hosts `./b.com`, `~./a.com`, a VirtualService for b.com routing to a.com -
+    the scope of a proxy in ns1 holds a.com although a `~` entry names it -/
+theorem exclusion_bypass_witness_unfixed :
+    ((scopeServices { exclGuard := false } {} f14Svcs [f14VS] (some f14SC) "ns1").map (·.id)).contains "s0" = true := by
+  decide +kernel
+
+/-- after the repair it does not -/
+theorem exclusion_honoured_witness :
+    ((scopeServices {} {} f14Svcs [f14VS] (some f14SC) "ns1").map (·.id)) = ["s1"] := by
+  decide +kernel
 
 end IstioModel.C07
